@@ -149,6 +149,10 @@ def main():
         eng.model_inputs = lambda: {"k": eng.solver.model().eval(klen, model_completion=True).as_long()}
         eng.discriminants = {"Expr::Unspecified": 0, "Expr::Call": 1, "Expr::Comprehension": 2, "Expr::Ident": 3, "Expr::List": 4,
                              "Expr::Literal": 5, "Expr::Map": 6, "Expr::Select": 7, "Expr::Struct": 8}
+        vsrc = open(os.path.join(repo, "antlr/src/reference.rs")).read()
+        vbody = vsrc[vsrc.index("pub enum Val {") + len("pub enum Val {"):]
+        vbody = vbody[:vbody.index("\n}")]
+        eng.discriminants.update({"Val::" + nme: k_ for k_, nme in enumerate(re.findall(r"^\s*([A-Z]\w*)\b", vbody, re.M))})
         desc = {"method": method, "operator": ops[opname], "operand_shape": operand_shape}
 
         def entry(e):
